@@ -523,6 +523,12 @@ _NUMFN = {"exp": cmath.exp, "ln": cmath.log, "sin": cmath.sin, "cos": cmath.cos,
     "sqrt": cmath.sqrt}
 
 
+def _cz(v):
+    """real numbers sit on the upper side of every branch cut"""
+    v = complex(v)
+    return complex(v.real, 0.0) if v.imag == 0 else v
+
+
 def evaluate(r, val: dict, exact: bool = False):  # pylint: disable=too-many-return-statements,too-many-branches
     """Numeric value of an rtree at `val` (name -> number).  exact=True: Fractions only (raises on anything else)."""
     k = r[0]
@@ -546,7 +552,7 @@ def evaluate(r, val: dict, exact: bool = False):  # pylint: disable=too-many-ret
             out = out * ev(a)
         return out
     if k == "neg":
-        return -ev(r[1])
+        return 0 - ev(r[1])       # (not unary minus: keeps +0.0 imaginary parts, branch cuts are approached from above)
     if k == "sub":
         return ev(r[1]) - ev(r[2])
     if k == "div":
@@ -558,12 +564,12 @@ def evaluate(r, val: dict, exact: bool = False):  # pylint: disable=too-many-ret
     if exact:
         raise ValueError(k)
     if k == "sqrt":
-        return cmath.sqrt(ev(r[1]))
+        return cmath.sqrt(_cz(ev(r[1])))
     if k == "rpow":
-        b, x = ev(r[1]), ev(r[2])
+        b, x = _cz(ev(r[1])), ev(r[2])
         return cmath.exp(x * cmath.log(b))
     if k == "fn":
-        return complex(_NUMFN[r[1]](ev(r[2][0])))
+        return complex(_NUMFN[r[1]](_cz(ev(r[2][0]))))
     if k == "log2":
         return cmath.log(ev(r[1])) / cmath.log(ev(r[2]))
     if k == "phi":
@@ -757,9 +763,15 @@ def _nat_lit(a):
     return a[1] if a[0] == "num" and a[2] == 0 else None
 
 
-def aexpr_rtree(a):  # pylint: disable=too-many-return-statements
-    """Mirror of CodeSyntax.aeval (the kernel re-checks the mirror by conversion: `change`)."""
+EULER = ("fn", "exp", [("num", Fraction(1))])
+
+
+def aexpr_rtree(a, consts=None):  # pylint: disable=too-many-return-statements
+    """Mirror of CodeSyntax.aeval (the kernel re-checks the mirror by conversion: `change`).
+    `consts` maps names to the rtree of the value the environment gives them (e.g. E -> exp 1)."""
     k = a[0]
+    if consts:
+        return _aexpr_rtree_c(a, consts)
     if k == "num":
         return ("dec", a[1], a[2])
     if k == "var":
@@ -794,6 +806,27 @@ def aexpr_rtree(a):  # pylint: disable=too-many-return-statements
             return ("div", ("fn", "ln", [args[0]]), ("fn", "ln", [args[1]]))
         return ("phi", f, args)
     raise ValueError(k)
+
+
+def _subst_consts(r, consts):
+    k = r[0]
+    if k == "var" and r[1] in consts:
+        return consts[r[1]]
+    if k in ("add", "mul"):
+        return (k, [_subst_consts(a, consts) for a in r[1]])
+    if k in ("neg", "inv", "sqrt"):
+        return (k, _subst_consts(r[1], consts))
+    if k in ("sub", "div", "rpow"):
+        return (k, _subst_consts(r[1], consts), _subst_consts(r[2], consts))
+    if k == "powi":
+        return (k, _subst_consts(r[1], consts), r[2])
+    if k in ("fn", "phi"):
+        return (k, r[1], [_subst_consts(a, consts) for a in r[2]])
+    return r
+
+
+def _aexpr_rtree_c(a, consts):
+    return _subst_consts(aexpr_rtree(a), consts)
 
 
 def aexpr_names(a):
@@ -979,7 +1012,11 @@ def build_lemma(kind: str, idx: int, parse_call: str, s: str, parsed, orig_sides
     for t in orig_sides:
         for n in var_names(t):
             em.var(n)
-    prt = [aexpr_rtree(p) for p in psides]
+    # the identifier E denotes Euler's number unless a symbol of the expression is displayed as E
+    consts = {}
+    if "E" not in em.vars and any("E" in aexpr_names(p) for p in psides):
+        consts["E"] = EULER
+    prt = [aexpr_rtree(p, consts) for p in psides]
     for t in prt:
         for n in var_names(t):
             em.var(n)
@@ -992,7 +1029,8 @@ def build_lemma(kind: str, idx: int, parse_call: str, s: str, parsed, orig_sides
             if h not in hs and not (h[0] in ("nz", "nonneg") and ("pos", h[1]) in hs):
                 hs.append(h)
     hyp_txt = [hyp_text(em, h) for h in hs]
-    rho = "(env_of [" + "; ".join(f"({coq_string(n)}, {v})" for n, v in em.vars.items()) + "])"
+    rho = "(env_of [" + "; ".join([f"({coq_string(n)}, {v})" for n, v in em.vars.items()] +
+        [f"({coq_string(n)}, {em.t(t)})" for n, t in consts.items()]) + "])"
     goals = []
     changes = []
     for p, prtree, o in zip(psides, prt, orig_sides):
@@ -1010,7 +1048,7 @@ def build_lemma(kind: str, idx: int, parse_call: str, s: str, parsed, orig_sides
     else:
         body = f"intros; {changes[0]}; {tactic}"
     proof = f"split; [ vm_compute; reflexivity | {body} ]."
-    info = {"vars": dict(em.vars), "hyps": hyp_txt, "hyp_trees": hs, "parsed_rtrees": prt}
+    info = {"vars": dict(em.vars), "hyps": hyp_txt, "hyp_trees": hs, "parsed_rtrees": prt, "consts": consts}
     return stmt, proof, info
 
 
@@ -1246,7 +1284,7 @@ def classify_and_build(prop: str, cases, parse_fn: str, tactic: str = "rd_solve"
         for t in c["sides"]:
             known.update(var_names(t))
             heads.update(phi_heads(t))
-        foreign = [n for n in aexpr_names(a) if n not in known and n != "pi"]
+        foreign = [n for n in aexpr_names(a) if n not in known and n != "pi" and not (n == "E" and c.get("euler_ok", True))]
         if foreign:
             c["status"] = "bad"
             c["bad"] = (f"rendering mentions names that are not display names of the expression: {foreign} in {c['s']!r}", True)
@@ -1318,7 +1356,7 @@ def numeric_only_check(ctx, c, rng):
         psides = (a,)
     assume = [(kd, ("var", n)) for n, kd in (c.get("assume") or {}).items() if kd]
     for o, p in zip(c["sides"], psides):
-        pr = aexpr_rtree(p)
+        pr = aexpr_rtree(p, {"E": EULER} if "E" not in var_names(o) else None)
         names = set(var_names(o)) | set(var_names(pr))
         hs = [h for h in assume if h[1][1] in names]
         found = find_distinguishing(rng, o, pr, hs, tries=24)
